@@ -33,6 +33,8 @@ func c18Legs(tier string, merge bool) []pairLeg {
 		add("mixed", Mixed())
 		add("hostile-arrays", HostileArrays())
 		add("large", Large())
+		add("numbers", NumDocs())
+		add("strings", StrDocs())
 		add("E2", EditStates(2, 1500))
 	} else {
 		add("U4", U(4))
@@ -46,6 +48,8 @@ func c18Legs(tier string, merge bool) []pairLeg {
 		add("mixed", Mixed())
 		add("hostile-arrays", HostileArrays())
 		add("large", Large())
+		add("numbers", NumDocs())
+		add("strings", StrDocs())
 		add("E1", EditStates(1, 300))
 	}
 	return legs
@@ -76,7 +80,7 @@ func init() {
 		Run:      runC18,
 		Required: func(string) []string { return []string{"patch/multi-hunk", "merge/multi-hunk", "patch/refused"} },
 		Assume:   []string{"RFC 6902 and RFC 7386 evaluators of /verif/mc/ref"},
-		Budget:   budget(4*time.Minute, 40*time.Minute),
+		Budget:   budget(7*time.Minute, 40*time.Minute),
 	})
 }
 
